@@ -378,7 +378,7 @@ class MetaSim(SimEngine):
         kind = script["kind"]
         try:
             import unified_planning.environment as envmod
-            W = World(world, env=envmod.GLOBAL_ENVIRONMENT)
+            W = World(world, env=envmod.GLOBAL_ENVIRONMENT, strict=True)
             problem = W.problem()
             soft = []
             if kind == "os":
